@@ -84,8 +84,10 @@ def flt(act, path, sel, value):
 
 def fl(*specs):
     out = []
-    for k, (act, path, sel) in enumerate(specs, 1):
-        out.append(flt(act, path, sel, "[[V%d]]" % k))
+    for k, spec in enumerate(specs, 1):
+        (act, path, sel) = spec[:3]
+        # an optional 4th element gives the value (default: the sentinel of the filter's position)
+        out.append(flt(act, path, sel, spec[3] if len(spec) > 3 else "[[V%d]]" % k))
     return "<<" + ", ".join(out) + ">>"
 
 FILTERS = {
@@ -121,6 +123,11 @@ FILTERS = {
   # a text prepend as the FIRST stage of the chain (alone, and before an html stage)
   "F30": fl(("text_prepend", [], "none")),
   "F31": fl(("text_prepend", [], "none"), ("append", ["html", "body"], "none")),
+  # a self-closing non-void target; the EMPTY selector (the serialised form of "no selector"); an empty value (replace = remove)
+  "F32": fl(("replace", ["html", "body", "span"], "none"), ("append", ["html", "body"], "none")),
+  "F33": fl(("append", ["html", "body"], "empty"), ("prepend", ["html", "body"], "empty")),
+  "F34": fl(("replace", ["html", "body", "p"], "none", ""), ("append", ["html", "body"], "none")),
+  "F35": fl(("replace", ["html", "head", "meta"], "empty")),
   # a non-empty list that builds nothing (unknown action): only used by the pipeline cases
   "F29": fl(("unknown", ["html", "body"], "none")),
 }
@@ -140,8 +147,8 @@ def main():
     out.append("DocsWell == {%s}" % ", ".join(n for n in DOCS if n.startswith("A")))
     out.append("DocsMessy == {%s}" % ", ".join(n for n in DOCS if n.startswith("B")))
     out.append("FiltersAll == {%s}" % ", ".join(f for f in FILTERS if f != "F29"))
-    out.append("FiltersQuick == {F1, F2, F3, F4, F5, F6, F7, F8, F10, F11, F12, F16, F21, F23, F24, F25, F26, F27, F30, F31}")
-    out.append("DocsQuick == {A2, A3, A7, A8, A9, A10, A11, A13, A14, A15, A16, B1, B2, B3, B4, B5, B11, B12, B14, B15}")
+    out.append("FiltersQuick == {F1, F2, F3, F4, F5, F6, F7, F8, F10, F11, F12, F16, F21, F23, F24, F25, F26, F27, F30, F31, F32, F33, F34, F35}")
+    out.append("DocsQuick == {A2, A3, A7, A8, A9, A10, A11, A13, A14, A15, A16, B1, B2, B3, B4, B5, B7, B11, B12, B13, B14, B15}")
     out.append("CasesQuick == Prod(DocsQuick, FiltersQuick)")
     out.append("CasesAll == Prod(DocsWell \\cup DocsMessy, FiltersAll)")
     out.append("=============================================================================")
